@@ -205,6 +205,11 @@ def malformed_case(rng):
     gs = []
     for i in range(rng.randint(1, 3)):
         mode = rng.choice(["other", "raw3", "rawsub", "rzx", "raw-noctl", "raw-short", "valid", "swapalpha"])
+        if dev == "DispersiveCavityQED" and mode in ("raw-noctl", "raw-short"):
+            # a gate object with a missing qubit only meets the router on the chain devices; on the unrouted
+            # device it would reach the rule functions, whose behaviour on such objects (controls=None handed
+            # on unchecked) is outside what the rule templates of C03 represent
+            mode = "valid"
         if mode == "other":
             g = random_gate(rng, N, OTHERS, i)
         elif mode == "raw3" and N >= 3:           # an unknown gate on three qubits
